@@ -105,7 +105,8 @@ Leak(plain, forbidden) ==
 
 Verdict(exp, plain, map) ==
   LET v1 == C01(Len(exp.src), plain, map) IN
-  IF v1 # "ok" THEN [c01 |-> v1, c02 |-> "skipped", c03 |-> "skipped", c04 |-> "skipped", c05 |-> "skipped"]
+  \* (entries outside the source do not hinder the other predicates: every access to the source is guarded)
+  IF Len(plain) # Len(map) THEN [c01 |-> v1, c02 |-> "skipped", c03 |-> "skipped", c04 |-> "skipped", c05 |-> "skipped"]
   ELSE LET w == Walk(exp.src, exp.items, plain, map, 1, 1, 0, Ok4) IN
-       [c01 |-> "ok", c02 |-> w.c02, c03 |-> w.c03, c04 |-> w.c04, c05 |-> w.c05]
+       [c01 |-> v1, c02 |-> w.c02, c03 |-> w.c03, c04 |-> w.c04, c05 |-> w.c05]
 =============================================================================
